@@ -32,6 +32,7 @@ import (
 	"strconv"
 	"strings"
 	"sync"
+	"sync/atomic"
 	"time"
 
 	"github.com/eclipse/paho.mqtt.golang/packets"
@@ -569,6 +570,71 @@ type vfMqClient struct {
 	acked  map[uint16]bool
 	done   chan struct{}
 	nextID uint16
+}
+
+// vfMqFaultConn is the broker side of a connection whose writes can be made to fail, like a
+// socket whose peer vanished: the writer notices, the blocked reader does not (yet).
+type vfMqFaultConn struct {
+	net.Conn
+	failWrites int32
+	handled    chan struct{} // closed when Broker.handleConn returned for this connection
+}
+
+func (f *vfMqFaultConn) Write(p []byte) (int, error) {
+	if atomic.LoadInt32(&f.failWrites) == 1 {
+		return 0, errors.New("vfMqFaultConn: injected write failure")
+	}
+	return f.Conn.Write(p)
+}
+
+// FailWrites makes every later write of the broker to this connection fail.
+func (f *vfMqFaultConn) FailWrites() { atomic.StoreInt32(&f.failWrites, 1) }
+
+// DialFault opens a loopback TCP connection whose broker side is wrapped in a vfMqFaultConn and
+// served by Broker.handleConn directly (the accept loop only does `go b.handleConn(conn)`).
+func (r *vfMqRig) DialFault(label string) (*vfMqClient, *vfMqFaultConn, error) {
+	var l net.Listener
+	var err error
+	for attempt := 0; attempt < 40; attempt++ {
+		if attempt > 0 {
+			time.Sleep(time.Duration(attempt) * 50 * time.Millisecond)
+		}
+		if l, err = net.Listen("tcp", "127.0.0.1:0"); err == nil {
+			break
+		}
+	}
+	if err != nil {
+		return nil, nil, err
+	}
+	defer l.Close()
+	type acc struct {
+		c   net.Conn
+		err error
+	}
+	ch := make(chan acc, 1)
+	go func() {
+		c, err := l.Accept()
+		ch <- acc{c, err}
+	}()
+	cli, err := net.DialTimeout("tcp", l.Addr().String(), vfMqWait)
+	if err != nil {
+		return nil, nil, err
+	}
+	a := <-ch
+	if a.err != nil {
+		cli.Close()
+		return nil, nil, a.err
+	}
+	fc := &vfMqFaultConn{Conn: a.c, handled: make(chan struct{})}
+	go func() {
+		r.broker.handleConn(fc)
+		close(fc.handled)
+	}()
+	c := &vfMqClient{Label: label, conn: cli.(*net.TCPConn), wake: make(chan struct{}), policy: vfMqAckAlways,
+		copies: map[uint16]int{}, order: map[uint16]int{}, acked: map[uint16]bool{}, done: make(chan struct{}), nextID: 1}
+	r.clients = append(r.clients, c)
+	go c.reader()
+	return c, fc, nil
 }
 
 func (r *vfMqRig) Dial(label string) (*vfMqClient, error) {
